@@ -9,12 +9,21 @@ Scope (exhaustive inside it):
   * Table op scalar / Table op Table, column by column, width / height mismatch must raise;
   * every public str/int/float/date attribute reachable through attribute broadcasting, called
     with a small argument table, lengths 0..3, None at every subset of positions;
-  * dates + int (adds days), dates + timedelta.
+  * dates + int (adds days), dates + timedelta;
+  * equal-but-distinct elements in one column (0.0 / -0.0; 2, 2.0, True, 1, IntEnum member in float, int,
+    complex and object vectors): every attribute of the vector kind reachable through broadcasting
+    (public and dunder), element i compared type- and sign-exactly with the method applied to element i;
+    the same vectors under the binary / unary operators;
+  * length mismatch at length 0: an empty vector (untyped, typed, produced by an all-False mask or an
+    empty slice) against every non-empty vector / list / tuple, and every non-empty vector against an
+    empty list / tuple / vector, every operator and operand form; zero-row tables (untyped, sliced,
+    masked) against tables / lists / vectors with rows and the reverse.
 Oracle: a list comprehension over the Python scalars in the written operand order.  A case where
 Python itself raises for some element pair is outside the quantifier and skipped.
 """
 import inspect
 import itertools
+import math
 import operator
 from datetime import date, datetime, timedelta
 
@@ -48,9 +57,30 @@ _EV = {}
 _hlit = lit
 
 
+def _negzero(x):
+    return x == 0 and math.copysign(1.0, x) < 0
+
+
+def exact(a, b):
+    """harness.same, and additionally 0.0 is not -0.0 (float, complex parts, inside tuples/lists)."""
+    if type(a) is not type(b):
+        return False
+    if isinstance(a, float):
+        if a != a or b != b:
+            return a != a and b != b
+        return a == b and math.copysign(1.0, a) == math.copysign(1.0, b)
+    if isinstance(a, complex):
+        return exact(a.real, b.real) and exact(a.imag, b.imag)
+    if isinstance(a, (list, tuple)):
+        return len(a) == len(b) and all(exact(x, y) for x, y in zip(a, b))
+    return a == b
+
+
 def lit(x):      # noqa: F811  (harness.lit + timedelta, which harness.NS cannot re-read from repr)
     if isinstance(x, timedelta):
         return f'timedelta(days={x.days}, seconds={x.seconds})'
+    if isinstance(x, complex) and (_negzero(x.real) or _negzero(x.imag)):
+        return f'complex({x.real!r}, {x.imag!r})'      # repr((-0+0j)) does not read back
     if isinstance(x, (list, tuple)):
         inner = ', '.join(lit(e) for e in x)
         if isinstance(x, tuple):
@@ -161,7 +191,129 @@ TABLE_COLS = {
 }
 
 
+# ---- equal-but-distinct elements in one column -------------------------------------------------
+NZ = -0.0
+EQ_BASES = {
+    # vector kind -> multisets of ==-equal, hash-equal elements that are different objects/types/signs
+    'float': [[0.0, NZ], [0.0, NZ, 0.0], [2, 2.0], [True, 1.0], [1, 1.0, True], [2.0, 2, 2.0],
+              [0, 0.0, NZ], [False, NZ, 0.0]],
+    'int': [[1, True], [0, False], [Color.RED, 1], [Color.RED, True, 1]],
+    'complex': [[1, 1 + 0j], [True, 1.0, 1 + 0j], [0j, complex(NZ, 0.0), complex(0.0, NZ)], [0.0, NZ, 0j],
+                [complex(NZ, NZ), 0, 0j]],
+}
+EQ_LONG = {
+    'float': [[2, 2.0, True, 1, 1.0], [0, 0.0, NZ, False, 0.0, NZ]],
+    'int': [[1, True, Color.RED, 1, True]],
+    'complex': [[1, True, 1.0, 1 + 0j, 1], [0, 0.0, NZ, 0j, complex(NZ, 0.0), complex(0.0, NZ), complex(NZ, NZ)]],
+}
+EQ_ARGS = {'__divmod__': [((2,), {}), ((2.0,), {})], '__rdivmod__': [((3,), {})], '__round__': [((), {}), ((1,), {}), ((None,), {})],
+           'to_bytes': [((), {}), ((2, 'little'), {})]}
+EQ_KINDS = {'float': float, 'int': int, 'complex': complex}
+
+
+def eq_vectors(kname, tier):
+    out, seen = [], set()
+    def add(v):
+        k = lit(v)
+        if k not in seen:
+            seen.add(k)
+            out.append(v)
+    for base in EQ_BASES[kname]:
+        for perm in itertools.permutations(base):
+            add(list(perm))
+            if tier != 'quick' or len(perm) <= 2:
+                for i in range(len(perm) + 1):      # None at every gap
+                    add(list(perm[:i]) + [None] + list(perm[i:]))
+        add([None] + list(base) + [None])
+        add(list(base[:1]) + [None] + list(base[1:]))
+    for v in EQ_LONG[kname]:
+        add(list(v))
+        add(list(reversed(v)))
+    return out
+
+
+def eq_attributes(kname):
+    """(name, is_property, args, kwargs): every attribute of the kind (public and dunder) that attribute
+    broadcasting reaches, i.e. that Vector does not define itself."""
+    kind = EQ_KINDS[kname]
+    out = []
+    for name in sorted(dir(kind)):
+        if hasattr(Vector, name):
+            continue
+        static = inspect.getattr_static(kind, name)
+        if type(static).__name__ in ('classmethod_descriptor', 'staticmethod', 'classmethod'):
+            continue
+        if not callable(getattr(kind, name)):
+            out.append((name, True, None, None))
+            continue
+        for a, kw in EQ_ARGS.get(name, [((), {})]):
+            out.append((name, False, a, kw))
+    return out
+
+
+EMPTY_MAKERS = ['untyped'] + ['typed:' + k for k in ['bool', 'int', 'float', 'complex', 'str', 'date']] + ['mask', 'slice', 'mask-int']
+M0_SEQS = {'int': [2, -3, 1], 'float': [2.5, 1.5, 0.5], 'str': ['a', 'bc', 'a'], 'bool': [True, False, True],
+           'nint': [None, 2, None], 'none': [None, None, None], 'date': [D, D2, D], 'td': [TD, TD, TD],
+           'complex': [1j, 2.5, 1j], 'obj': [1, 'a', 2.5]}
+M0_FORMS = ['ev', 've', 'el', 'le', 'lv-e', 'lv-l']
+
+
+def cases_strengthen(tier):
+    # ---- broadcast attributes on equal-but-distinct elements
+    for kname in EQ_KINDS:
+        attrs = eq_attributes(kname)
+        for vals in eq_vectors(kname, tier):
+            for dt in (None, kname, 'object'):
+                for name, prop, args, kw in attrs:
+                    yield {'k': 'meth', 'kind': kname, 'name': name, 'prop': prop, 'eq': 1, 'dtype': dt,
+                           'args': lit(tuple(args)) if args is not None else '()', 'kw': lit(kw or {}), 'a': lit(vals)}
+    # ---- the same vectors under the operators (results compared sign- and type-exactly)
+    eq_scalars = [1, 1.0, -1.0, True, 0, 0.0, NZ, 2, 1j]
+    for kname in EQ_KINDS:
+        vecs = eq_vectors(kname, 'quick')
+        for vals in vecs:
+            for op in UNOPS:
+                yield {'k': 'un', 'op': op, 'a': lit(vals), 'eq': 1}
+            for op in BINOPS:
+                for sc in eq_scalars:
+                    yield {'k': 'bin', 'op': op, 'form': 'vs', 'a': lit(vals), 'b': lit(sc), 'eq': 1}
+                    yield {'k': 'bin', 'op': op, 'form': 'sv', 'a': lit(sc), 'b': lit(vals), 'eq': 1}
+                for form in ('vv', 'vl', 'lv'):
+                    yield {'k': 'bin', 'op': op, 'form': form, 'a': lit(vals), 'b': lit(list(reversed(vals))), 'eq': 1}
+                    yield {'k': 'bin', 'op': op, 'form': form, 'a': lit(vals), 'b': lit([1] * len(vals)), 'eq': 1}
+                    yield {'k': 'bin', 'op': op, 'form': form, 'a': lit([NZ] * len(vals)), 'b': lit(vals), 'eq': 1}
+    # ---- length mismatch at length 0
+    for op in BINOPS:
+        for form in M0_FORMS:
+            for fam, seq in M0_SEQS.items():
+                for n in (1, 2, 3):
+                    if form in ('ev', 've', 'lv-l'):
+                        makers = EMPTY_MAKERS
+                    elif form == 'el':
+                        makers = [m + '|' + c for m in EMPTY_MAKERS for c in ('list', 'tuple')]
+                    else:
+                        makers = ['list', 'tuple']
+                    for mk in makers:
+                        yield {'k': 'mismatch0', 'op': op, 'form': form, 'e': mk, 'fam': fam, 'b': lit(seq[:n])}
+    # ---- zero-row tables
+    ztabs = [{'a': 'int'}, {'a': 'int', 'b': 'float'}, {'a': 'str', 'b': 'nint'}, {'a': 'date', 'b': 'int', 'c': 'bool'}]
+    for op in BINOPS:
+        for spec in ztabs:
+            for zm in ('untyped', 'slice', 'mask'):
+                for n in (1, 2, 3):
+                    for other in ('table', 'table-r', 'list', 'tuple', 'vector', 'list-r', 'vector-r'):
+                        yield {'k': 'tab-mismatch0', 'op': op, 'spec': lit(spec), 'zm': zm, 'n': n, 'other': other}
+                    if zm == 'untyped':
+                        for other in ('empty-list', 'empty-tuple', 'empty-vector', 'empty-int-vector', 'empty-list-r', 'empty-vector-r'):
+                            yield {'k': 'tab-mismatch0', 'op': op, 'spec': lit(spec), 'zm': 'rows', 'n': n, 'other': other}
+
+
 def cases(tier, seed):
+    yield from cases_base(tier, seed)
+    yield from cases_strengthen(tier)
+
+
+def cases_base(tier, seed):
     fv = family_vectors(tier)
     # ---- binary, length 1: every ordered pair of the pool, every form
     for op in BINOPS:
@@ -353,9 +505,11 @@ def check_values(fails, prefix, got_list, want, what):
         fails.append(Fail(f'{prefix}:wrong-length', what, want, got_list))
         return
     for g, w in zip(got_list, want):
-        if not same(g, w):
+        if not exact(g, w):
             if g is not None and w is not None and type(g) is not type(w) and g == w:
                 cls = 'wrong-element-type'
+            elif same(g, w):
+                cls = 'wrong-zero-sign'
             elif w is None:
                 cls = 'none-not-propagated'
             elif g is None:
@@ -421,7 +575,7 @@ def eval_bin(case):
     if lit(a) != a0 or lit(b) != b0:
         fails.append(Fail(f'C05:{s}:operand-mutated', what, (a0, b0), (lit(a), lit(b))))
     for v, src in zip(vecs, ([a, b] if form == 'vv' else [a] if form in ('vs', 'vl') else [b])):
-        if not same(list(v), list(src)):
+        if not exact(list(v), list(src)):
             fails.append(Fail(f'C05:{s}:operand-mutated', what, src, list(v)))
     m = truthful(r)
     if m:
@@ -471,7 +625,7 @@ def eval_un(case):
     if r is v:
         fails.append(Fail(f'C05:{s}:not-new', what, None, None))
     check_values(fails, f'C05:{s}', list(r), want, what + f' = {list(r)!r}; Python elementwise = {want!r}')
-    if not same(list(v), a):
+    if not exact(list(v), a):
         fails.append(Fail(f'C05:{s}:operand-mutated', what, a, list(v)))
     m = truthful(r)
     if m:
@@ -504,7 +658,7 @@ def eval_days(case):
     if not isinstance(r, Vector):
         return [Fail(f'C05:{s}:not-a-vector', what, want, r)]
     check_values(fails, f'C05:{s}', list(r), want, what + f' = {list(r)!r}, expected {want!r}')
-    if not same(list(v), a):
+    if not exact(list(v), a):
         fails.append(Fail(f'C05:{s}:operand-mutated', what, a, list(v)))
     m = truthful(r)
     if m:
@@ -648,17 +802,29 @@ def eval_meth(case):
     call = f'.{name}' + ('' if case['prop'] else f'(*{case["args"]}, **{case["kw"]})')
     what = f'Vector({case["a"]}){call}'
     s = f'{kname}.{name}'
+    dt = case.get('dtype')
     if all(e is None for e in a):
         mk = lambda: Vector(a, dtype=DataType(KIND[kname], nullable=bool(a)))
         what = f'Vector({case["a"]}, dtype=DataType({kname}, nullable={bool(a)})){call}'
+    elif dt:
+        nullable = any(e is None for e in a)
+        mk = lambda: Vector(a, dtype=DataType(object if dt == 'object' else KIND[dt], nullable=nullable))
+        what = f'Vector({case["a"]}, dtype=DataType({dt}, nullable={nullable})){call}'
     else:
         mk = lambda: Vector(a)
     fails = []
     try:
         v = mk()
+    except Exception as e:
+        if dt:
+            return []                   # constructing with an explicit dtype is C04's business
+        return [Fail(f'C05:broadcast.{s}:raised-{type(e).__name__}', what + f' raised {e!r}', want, repr(e))]
+    try:
         attr = getattr(v, name)
         r = attr if case['prop'] else attr(*args, **kw)
     except Exception as e:
+        if dt == 'object' and isinstance(e, AttributeError):
+            return []                   # an object vector does not broadcast attributes: not reachable
         cls = f'raised-{type(e).__name__}'
         if not a:
             cls += '-empty'
@@ -671,7 +837,7 @@ def eval_meth(case):
             sub = 'became-table'
         return [Fail(f'C05:broadcast.{s}:{sub}', what + f' returned {type(r).__name__}', want, r)]
     check_values(fails, f'C05:broadcast.{s}', list(r), want, what + f' = {list(r)!r}, expected {want!r}')
-    if not same(list(v), a):
+    if not exact(list(v), a):
         fails.append(Fail(f'C05:broadcast.{s}:operand-mutated', what, a, list(v)))
     m = truthful(r)
     if m:
@@ -679,8 +845,128 @@ def eval_meth(case):
     return fails
 
 
+def make_empty(mk, b):
+    """An empty vector and its source text; None when it cannot be produced (not C05's business)."""
+    try:
+        if mk == 'untyped':
+            v, src = Vector([]), 'Vector([])'
+        elif mk.startswith('typed:'):
+            v, src = Vector([], dtype=KIND[mk[6:]]), f'Vector([], dtype={mk[6:]})'
+        elif mk == 'mask':
+            v, src = Vector(b)[[False] * len(b)], f'Vector({lit(b)})[{[False] * len(b)}]'
+        elif mk == 'slice':
+            v, src = Vector(b)[0:0], f'Vector({lit(b)})[0:0]'
+        else:
+            w = Vector([1, 2])
+            v, src = w[w > 5], 'Vector([1, 2])[Vector([1, 2]) > 5]'
+    except Exception:
+        return None, None
+    if not isinstance(v, Vector) or isinstance(v, Table) or len(v) != 0:
+        return None, None
+    return v, src
+
+
+def eval_mismatch0(case):
+    op, form = case['op'], case['form']
+    f = BINOPS[op]
+    b = cev(case['b'])
+    mk, _, cont = case['e'].partition('|')
+    try:
+        if form in ('ev', 've', 'el', 'lv-l'):
+            e, esrc = make_empty(mk, b)
+            if e is None:
+                return []
+        if form in ('ev', 've', 'le', 'lv-e'):
+            vb = Vector(b)
+            if len(vb) != len(b):
+                return []
+    except Exception:
+        return []
+    bsrc = case['b']
+    try:
+        if form == 'ev':
+            s, what, left, right = f'{owner(e, "__" + DUNDER[op] + "__")}.__{DUNDER[op]}__.vector', f'{esrc} {op} Vector({bsrc})', e, vb
+        elif form == 've':
+            s, what, left, right = f'{owner(vb, "__" + DUNDER[op] + "__")}.__{DUNDER[op]}__.vector', f'Vector({bsrc}) {op} {esrc}', vb, e
+        elif form == 'el':
+            seq = tuple(b) if cont == 'tuple' else list(b)
+            s, what, left, right = f'{owner(e, "__" + DUNDER[op] + "__")}.__{DUNDER[op]}__.list', f'{esrc} {op} {lit(seq)}', e, seq
+        elif form == 'le':
+            seq = () if mk == 'tuple' else []
+            s, what, left, right = f'{owner(vb, "__" + DUNDER[op] + "__")}.__{DUNDER[op]}__.list', f'Vector({bsrc}) {op} {lit(seq)}', vb, seq
+        elif form == 'lv-e':
+            seq = () if mk == 'tuple' else []
+            s, what, left, right = f'{owner(vb, "__r" + DUNDER[op] + "__")}.__r{DUNDER[op]}__.list', f'{lit(seq)} {op} Vector({bsrc})', seq, vb
+        else:
+            s, what, left, right = f'{owner(e, "__r" + DUNDER[op] + "__")}.__r{DUNDER[op]}__.list', f'{bsrc} {op} {esrc}', list(b), e
+        r = f(left, right)
+    except Exception:
+        return []
+    obs = list(r) if isinstance(r, Vector) else r
+    return [Fail(f'C05:{s}:length-mismatch-accepted', f'{what}: operands of lengths {len(left)} and {len(right)} did not raise',
+                 'an error', obs)]
+
+
+def eval_tab_mismatch0(case):
+    op, zm, n, other = case['op'], case['zm'], case['n'], case['other']
+    f = BINOPS[op]
+    spec = cev(case['spec'])
+    full = {name: list(M0_SEQS[fam][:n]) for name, fam in spec.items()}
+    first = list(full.values())[0]
+    try:
+        t = mk_table(full)
+        if zm == 'untyped':
+            z, zsrc = mk_table({name: [] for name in spec}), f'Table({lit({name: [] for name in spec})})'
+        elif zm == 'slice':
+            z, zsrc = t[0:0], f'Table({lit(full)})[0:0]'
+        elif zm == 'mask':
+            z, zsrc = t[[False] * n], f'Table({lit(full)})[{[False] * n}]'
+        else:
+            z, zsrc = None, None
+        if zm != 'rows' and (not isinstance(z, Table) or len(z) != 0 or len(z.cols()) != len(spec)):
+            return []
+        if not isinstance(t, Table) or len(t) != n:
+            return []
+    except Exception:
+        return []
+    tsrc = f'Table({lit(full)})'
+    d, rd = f'__{DUNDER[op]}__', f'__r{DUNDER[op]}__'
+    try:
+        if other == 'table':
+            s, what, left, right = f'Table.{d}.table', f'{zsrc} {op} {tsrc}', z, t
+        elif other == 'table-r':
+            s, what, left, right = f'Table.{d}.table', f'{tsrc} {op} {zsrc}', t, z
+        elif other in ('list', 'tuple'):
+            seq = tuple(first) if other == 'tuple' else list(first)
+            s, what, left, right = f'Table.{d}.list', f'{zsrc} {op} {lit(seq)}', z, seq
+        elif other == 'vector':
+            s, what, left, right = f'Table.{d}.vector', f'{zsrc} {op} Vector({lit(first)})', z, Vector(first)
+        elif other == 'list-r':
+            s, what, left, right = f'Table.{rd}.list', f'{lit(first)} {op} {zsrc}', list(first), z
+        elif other == 'vector-r':
+            s, what, left, right = f'Vector.{d}.table', f'Vector({lit(first)}) {op} {zsrc}', Vector(first), z
+        elif other in ('empty-list', 'empty-tuple'):
+            seq = () if other == 'empty-tuple' else []
+            s, what, left, right = f'Table.{d}.list', f'{tsrc} {op} {lit(seq)}', t, seq
+        elif other == 'empty-vector':
+            s, what, left, right = f'Table.{d}.vector', f'{tsrc} {op} Vector([])', t, Vector([])
+        elif other == 'empty-int-vector':
+            s, what, left, right = f'Table.{d}.vector', f'{tsrc} {op} Vector([], dtype=int)', t, Vector([], dtype=int)
+        elif other == 'empty-list-r':
+            s, what, left, right = f'Table.{rd}.list', f'[] {op} {tsrc}', [], t
+        else:
+            s, what, left, right = f'Vector.{d}.table', f'Vector([]) {op} {tsrc}', Vector([]), t
+        r = f(left, right)
+    except Exception:
+        return []
+    obs = [list(c) for c in r.cols()] if isinstance(r, Table) else (list(r) if isinstance(r, Vector) else r)
+    return [Fail(f'C05:{s}:height-mismatch-accepted', f'{what}: a zero-row operand against {n} row(s) did not raise (column by column the lengths differ)',
+                 'an error', obs)]
+
+
 EVAL = {'bin': eval_bin, 'mismatch': eval_mismatch, 'un': eval_un, 'days': eval_days, 'days-mismatch': eval_days_mismatch,
-        'tab': eval_tab, 'tab-mismatch': eval_tab_mismatch, 'meth': eval_meth, 'empty': eval_empty}
+        'tab': eval_tab, 'tab-mismatch': eval_tab_mismatch, 'meth': eval_meth, 'empty': eval_empty,
+        'mismatch0': eval_mismatch0, 'tab-mismatch0': eval_tab_mismatch0}
 
 
 def evaluate(case):
@@ -703,7 +989,14 @@ def nontrivial(case):
         a = cev(case['a'])
         return (k, case['op'], describe(a, [])[0], len(a), any(x is None for x in a))
     if k == 'meth':
+        if case.get('eq'):
+            a = cev(case['a'])
+            return (k, 'eq', case['kind'], case['name'], case['args'], case['kw'], case.get('dtype'), describe(a, [])[0])
         return (k, case['kind'], case['name'], case['args'], case['kw'])
+    if k == 'mismatch0':
+        return (k, case['op'], case['form'], case['e'], case['fam'])
+    if k == 'tab-mismatch0':
+        return (k, case['op'], case['zm'], case['other'], case['spec'])
     if k in ('tab', 'tab-mismatch'):
         a = cev(case['a'])
         return (k, case['op'], case.get('bt'), tuple(describe(c, [])[0] for c in a.values()), len(list(a.values())[0]))
